@@ -64,7 +64,7 @@ func main() {
 		Child: child,
 		Post: func(c *ev.Check, outs []*run.Outcome) {
 			for _, k := range []string{"rows.ts.in-range/scaled", "rows.ts.in-range/below-24", "rows.ts.in-range/unparseable", "rows.ts.before-genesis", "rows.ts.not-an-int64", "rows.row.too-few-fields",
-				"files.csv_error", "files.wellformed", "files.absent", "records.negative_scaled", "records.matched", "calib.valid_readback", "calib.malformed_rejected", "calib.absent_defaults",
+				"files.csv_error", "files.wellformed", "files.absent", "records.negative_scaled", "records.matched", "calib.valid_readback", "calib.malformed_rejected", "calib.malformed_after_earlier_life", "calib.absent_defaults",
 				"rows.boundary24", "farfuture.probes", "files.single_column_first_row", "rewrite.same_size_same_mtime",
 				"gen.long-fields", "big.files", "big.limit_inside_timestamp", "big.limit_inside_reading", "big.limit_on_newline", "big.size_at_limit"} {
 				c.Require(k, 1)
@@ -711,6 +711,31 @@ func (w *world) calibrationRun(idx int, nfiles int) {
 		}
 	}
 	cr := w.newRun(idx, cal, energy)
+	if cal.class == "malformed" && idx%2 == 0 {
+		// An earlier life in the same directory: the device ran with a valid
+		// calibration (or with none) before the file became malformed, e.g. by
+		// a rewrite that was cut short. What an earlier start read is not what
+		// the file says now.
+		earlier := fmt.Sprintf("%d\n%d\n", 2+rng.Intn(5000), 1+rng.Intn(3000))
+		cr.env.CTSettings, cr.env.Energy = &earlier, nil
+		if idx%4 == 0 {
+			cr.env.CTSettings = nil
+		}
+		if err := cr.env.Write(); err != nil {
+			r.Inconc("cannot provision client: " + err.Error())
+			return
+		}
+		run.Op("earlier life client=%d calibration=%q", idx, earlier)
+		c0, err := drv.StartClient(cr.env.Dir)
+		if err != nil {
+			os.RemoveAll(cr.env.Dir)
+			r.Violationf("valid-calibration-rejected", map[string]interface{}{"calibration": earlier, "batch": w.b}, "NewClient failed on ct-settings %q: %v", earlier, err)
+			return
+		}
+		c0.Close()
+		cr.env.CTSettings, cr.env.Energy = cal.text, energy
+		r.Count("calib.malformed_after_earlier_life", 1)
+	}
 	if err := cr.env.Write(); err != nil {
 		r.Inconc("cannot provision client: " + err.Error())
 		return
